@@ -236,14 +236,20 @@ def run_trace(ck, rng, quick):
                 e += 1
                 lines.append("enq " + c07.ev_asdu(e).hex())
             ci += 1
-            lines += ["connect c%d 10.0.0.1:%d" % (ci, 1000 + ci), "tick", "rx c%d %s" % (ci, apci.STARTDT_ACT.hex()), "tick"]
+            lines += ["connect c%d 10.0.0.1:%d" % (ci, 1000 + ci), "tick"]
+            if rng.chance(1, 3):      # start the counters right below the 32767 -> 0 wrap
+                lines.append("poke c%d vs=%d vr=%d" % (ci, rng.choice([32765, 32766, 32767]), rng.choice([0, 32767])))
+            lines += ["rx c%d %s" % (ci, apci.STARTDT_ACT.hex()), "tick"]
             for _ in range(rng.below(12)):
                 r = rng.below(10)
                 if r < 4:
                     e += 1
                     lines += ["enq " + c07.ev_asdu(e).hex(), "tick"]
                 elif r < 7:
-                    lines += ["rxs c%d %d" % (ci, -rng.below(3)), "tick"]
+                    d = -rng.below(3)
+                    lines += ["rxs c%d %d" % (ci, d), "tick"]
+                    if rng.chance(1, 3):     # the peer repeats the same acknowledgement (e.g. two commands in a row)
+                        lines += ["rxs c%d %d" % (ci, d), "tick"]
                 else:
                     lines += ["tick %d" % rng.range(1, 3)]
             how = rng.below(3)
